@@ -5,6 +5,7 @@
 // The program calls a symbolic selection of the functions.  The oracle walks the output image from the program's
 // own jal words: every function in the reference closure must be present once, byte-identical, calls re-bound.
 //   LIBKIND 1: lib.o   2: lib.a (one member)   3: lib.a (symbol-index member, fa+fb in member 1, fc in member 2)
+//   EXTRASEC 1/2: additional sections .text.startup, .data, .rel.text.startup after / before the ones they resemble
 //   UNSUPPORTED 1: big-endian ELF32  2: ELF64 header  3: truncated after the ELF magic  4: truncated inside the section
 //   header table  5: big-endian ELF32 as the only archive member
 #include "symx.h"
@@ -29,6 +30,9 @@ extern int naken_asm_main(int argc, char *argv[]);
 #ifndef BIGEND
 #define BIGEND 0
 #endif
+#ifndef EXTRASEC
+#define EXTRASEC 0
+#endif
 #define NF 3
 static uint8_t lib[4096]; static long liblen;
 static uint8_t out[4096];
@@ -46,7 +50,7 @@ static void ptext(uint8_t *p, uint32_t v) { if (BIGEND) { p[3] = (uint8_t)v; p[2
 // builds one ELF32 object holding functions [f0, f1); returns its length
 static long build_obj(uint8_t *o, int f0, int f1)
 {
-  static const char shstr[] = "\0.text\0.symtab\0.strtab\0.rel.text\0.shstrtab";   // offsets 1, 7, 15, 23, 33
+  static const char shstr[] = "\0.text\0.symtab\0.strtab\0.rel.text\0.shstrtab\0.text.startup\0.data\0.rel.text.startup";   // offsets 1, 7, 15, 23, 33, 43, 57, 63
   uint8_t text[64], symtab[16 * 8], strtab[64], rel[32];
   long ntext = 0, nsym = 16, nstr = 1, nrel = 0;
   memset(symtab, 0, sizeof(symtab)); strtab[0] = 0;
@@ -75,14 +79,27 @@ static long build_obj(uint8_t *o, int f0, int f1)
     p32(rel + nrel, F[f].value + 4 * (uint32_t)F[f].call_at); p32(rel + nrel + 4, ((uint32_t)symidx[t] << 8) | 4); nrel += 8;
   }
   long pos = 52;
-  struct { int name, type; long off, size; int link, info, ent; } S[6]; int ns = 0;
+  struct { int name, type; long off, size; int link, info, ent; } S[12]; int ns = 0;
   memset(o, 0, 52);
   S[ns++] = { 0, 0, 0, 0, 0, 0, 0 };
 #define ADD(nm, ty, data, len, lk, inf, en) do { while (pos & 3) o[pos++] = 0; memcpy(o + pos, data, (size_t)(len)); S[ns++] = { nm, ty, pos, (long)(len), lk, inf, en }; pos += (len); } while (0)
+  // EXTRASEC: other sections a compiler emits, whose names start like the ones the linker looks for
+  //   1: after the sections they resemble   2: before them
+  static const uint8_t startup[8] = { 0x77, 0x77, 0x02, 0x24, 0x77, 0x77, 0x02, 0x24 }, data[4] = { 1, 2, 3, 4 };
+  uint8_t rel_startup[16];
+  // relocations of .text.startup at the same offsets as the call sites of .text, but naming symbol 1 (the first function)
+  for (int i = 0; i < 2; i++) { p32(rel_startup + 8 * i, i < nrel / 8 ? (uint32_t)(rel[8 * i] | rel[8 * i + 1] << 8) : 0); p32(rel_startup + 8 * i + 4, (1u << 8) | 4); }
+  int text_index = EXTRASEC == 2 ? 3 : 1;
+  for (long q = 16; q < nsym; q += 16) if (symtab[q + 14] == 1) p16(symtab + q + 14, (unsigned)text_index);
+  if (EXTRASEC == 2) { ADD(43, 1, startup, 8, 0, 0, 0); ADD(63, 9, rel_startup, 16, 0, 1, 8); }
   ADD(1, 1, text, ntext, 0, 0, 0);
-  ADD(7, 2, symtab, nsym, 3, 1, 16);
+  if (EXTRASEC == 1) { ADD(43, 1, startup, 8, 0, 0, 0); ADD(57, 1, data, 4, 0, 0, 0); }
+  int symtab_index = ns;
+  ADD(7, 2, symtab, nsym, symtab_index + 1, 1, 16);
   ADD(15, 3, strtab, nstr, 0, 0, 0);
-  ADD(23, 9, rel, nrel, 2, 1, 8);
+  ADD(23, 9, rel, nrel, symtab_index, text_index, 8);
+  if (EXTRASEC == 1) ADD(63, 9, rel_startup, 16, symtab_index, 2, 8);
+  int shstr_index = ns;
   ADD(33, 3, shstr, (long)sizeof(shstr), 0, 0, 0);
   while (pos & 3) o[pos++] = 0;
   long shoff = pos;
@@ -94,7 +111,7 @@ static long build_obj(uint8_t *o, int f0, int f1)
     pos += 40;
   }
   o[0] = 0x7f; o[1] = 'E'; o[2] = 'L'; o[3] = 'F'; o[4] = 1; o[5] = 1; o[6] = 1;
-  p16(o + 16, 1); p16(o + 18, 8); p32(o + 20, 1); p32(o + 32, (uint32_t)shoff); p16(o + 40, 52); p16(o + 46, 40); p16(o + 48, (unsigned)ns); p16(o + 50, 5);
+  p16(o + 16, 1); p16(o + 18, 8); p32(o + 20, 1); p32(o + 32, (uint32_t)shoff); p16(o + 40, 52); p16(o + 46, 40); p16(o + 48, (unsigned)ns); p16(o + 50, (unsigned)shstr_index);
   return pos;
 }
 static long ar_member(uint8_t *a, const char *name, const uint8_t *data, long n)
